@@ -795,4 +795,226 @@ theorem holds_model (i : Input) : holds i (model i) = true := by
       rw [hh, h1]
       simpa [C10_refines] using h2) i
 
+
+/-! ## per key: every lifetime exactly once -/
+/-- the closed lifetimes of a key's events: cut after every final event (`acc` = events since the last cut) -/
+def closedOf : List Event → List Event → List (List Event)
+  | _, [] => []
+  | acc, e :: es => if evFinal e then (acc ++ [e]) :: closedOf [] es else closedOf (acc ++ [e]) es
+
+/-- the lifetimes partition the key's events: nothing is lost, nothing is counted twice -/
+theorem C10_lifetimes_partition (acc xs : List Event) :
+    (closedOf acc xs).flatten ++ openTail acc xs = acc ++ xs := by
+  induction xs generalizing acc with
+  | nil => simp [closedOf, openTail]
+  | cons x xs ih =>
+    simp only [closedOf, openTail]
+    split
+    · simp [ih []]
+    · simp [ih (acc ++ [x])]
+
+/-- a closed lifetime ends with a final event and contains no other one (given that the events carried over
+from before, `acc`, are not final) -/
+theorem C10_lifetimes_closed (acc xs : List Event) (hacc : ∀ e ∈ acc, evFinal e = false) :
+    ∀ l ∈ closedOf acc xs, ∃ init e, l = init ++ [e] ∧ evFinal e = true ∧ ∀ x ∈ init, evFinal x = false := by
+  induction xs generalizing acc with
+  | nil => simp [closedOf]
+  | cons x xs ih =>
+    intro l hl
+    simp only [closedOf] at hl
+    split at hl
+    · rename_i hx
+      rcases List.mem_cons.mp hl with hl | hl
+      · exact ⟨acc, x, hl, hx, hacc⟩
+      · exact ih [] (by simp) l hl
+    · rename_i hx
+      apply ih (acc ++ [x]) _ l hl
+      intro e he
+      rcases List.mem_append.mp he with he | he
+      · exact hacc e he
+      · simp only [List.mem_singleton] at he; subst he; simpa using hx
+
+theorem inv_run (pre : List Event) (t : Tbl) (hI : Inv pre t) (es : List Event) : Inv (pre ++ es) (run t es).1 := by
+  induction es generalizing pre t with
+  | nil => simpa [run] using hI
+  | cons e es ih =>
+    have := ih (pre ++ [e]) _ (inv_step pre t hI e)
+    simpa [run] using this
+
+theorem run_key (k : Key) (pre : List Event) (t : Tbl) (hI : Inv pre t) (es : List Event) :
+    ((run t es).2.filter (·.1 == k)).map (·.2) = (closedOf (cur k pre) (proj k es)).map (report k.1 · true) := by
+  induction es generalizing pre t with
+  | nil => simp [run, proj, closedOf]
+  | cons e es ih =>
+    simp only [run, List.filter_append, List.map_append]
+    rw [ih (pre ++ [e]) _ (inv_step pre t hI e)]
+    cases hk : key e with
+    | none =>
+      rw [step_key_none t e hk, proj_cons_other k es e (by simp [hk]), cur_snoc_other k pre e (by simp [hk])]
+      simp
+    | some k' =>
+      by_cases hkk : k' = k
+      · subst hkk
+        have hrec := step_record pre t hI e k' hk
+        rw [proj_cons_self k' es e hk, cur_snoc_self k' pre e hk]
+        simp only [step, hk, isFinal_eq, closedOf]
+        by_cases hf : evFinal e
+        · simp [hf, hrec]
+        · simp [hf]
+      · have hne : (k' == k) = false := by simpa using hkk
+        rw [proj_cons_other k es e (by simp [hk, hkk]), cur_snoc_other k pre e (by simp [hk, hkk])]
+        simp only [step, hk]
+        split <;> simp [hne]
+
+theorem filter_key (t : Tbl) (k : Key) (h : (keys t).Nodup) :
+    t.filter (·.1 == k) = match t.get k with | some a => [(k, a)] | none => [] := by
+  induction t with
+  | nil => rfl
+  | cons p t ih =>
+    obtain ⟨k', a⟩ := p
+    simp only [keys, List.map_cons, List.nodup_cons] at h
+    by_cases hk : k' = k
+    · subst hk
+      have : t.filter (·.1 == k') = [] := by
+        rw [List.filter_eq_nil_iff]
+        intro q hq
+        simp only [beq_iff_eq]
+        intro hh
+        exact h.1 (List.mem_map.mpr ⟨q, hq, hh⟩)
+      simp [List.filter_cons, Tbl.get, this]
+    · have hne : (k' == k) = false := by simpa using hk
+      simp only [List.filter_cons, hne, Tbl.get, hk, if_false]
+      exact ih h.2
+
+/-- **C10 (exactly once, per key)**: the reports made for key `(test id, route code)` are exactly the lifetimes
+of that key, in order — one report per closed lifetime, and one (without second timestamp) for the open lifetime
+if there is one.  Events of other keys do not interfere. -/
+theorem C10_once (es : List Event) (k : Key) :
+    ((consumeKeyed es).filter (·.1 == k)).map (·.2)
+      = (closedOf [] (proj k es)).map (report k.1 · true)
+        ++ (match cur k es with | [] => [] | a :: l => [report k.1 (a :: l) false]) := by
+  have hI := inv_run [] [] inv_nil es
+  simp only [List.nil_append] at hI
+  simp only [consumeKeyed, List.filter_append, List.map_append]
+  rw [run_key k [] [] inv_nil es]
+  congr 1
+  simp only [flush, List.filter_map, List.filter_reverse]
+  have : ((fun x : Key × Report => x.1 == k) ∘ fun p : Key × Report => (p.1, { p.2 with ts1 := none }))
+      = fun x => x.1 == k := rfl
+  rw [this, filter_key _ k hI.nodup, hI.get k]
+  cases cur k es with
+  | nil => rfl
+  | cons a l => simp [report_open]
+
+/-- **C10**: events without a test id are ignored — removing (or inserting) them anywhere changes nothing. -/
+theorem C10_no_id_ignored (es : List Event) : consume (es.filter fun e => e.testId.isSome) = consume es := by
+  have h : ∀ t, run t (es.filter fun e => e.testId.isSome) = run t es := by
+    induction es with
+    | nil => intro t; rfl
+    | cons e es ih =>
+      intro t
+      cases hid : e.testId with
+      | none =>
+        have : key e = none := by simp [key, hid]
+        simp [List.filter_cons, hid, run, step_key_none t e this, ih t]
+      | some n => simp [List.filter_cons, hid, run, ih]
+  simp [consume, consumeKeyed, h]
+
+/-! ## what a report contains -/
+theorem C10_report_status (id : Nat) (l : List Event) (c : Bool) :
+    (report id l c).status = ((l.filterMap (·.status)).getLast?).getD .unknown := by
+  simp [report, lastSome, List.filterMap_map]
+theorem C10_report_tags (id : Nat) (l : List Event) (c : Bool) :
+    (report id l c).tags = ((l.filterMap (·.tags)).getLast?).getD [] := by
+  simp [report, lastSome, List.filterMap_map]
+theorem C10_report_timestamps (id : Nat) (a : Event) (l : List Event) :
+    (report id (a :: l) true).ts0 = a.timestamp ∧ (report id (a :: l) true).ts1 = ((a :: l).getLast?).bind (·.timestamp)
+    ∧ (report id (a :: l) false).ts0 = a.timestamp ∧ (report id (a :: l) false).ts1 = none := by
+  simp [report]
+/-- attachments: one entry per file name that received a non-empty chunk, no name twice; its bytes are the
+concatenation of that name's non-empty chunks in arrival order, its content type that of the first of them -/
+theorem C10_report_files (id : Nat) (l : List Event) (c : Bool) :
+    ((report id l c).details.map (·.name)).Nodup
+    ∧ (∀ n, n ∈ (report id l c).details.map (·.name) ↔ ∃ e ∈ l, ∃ m bs, chunk e = some (n, m, bs))
+    ∧ ∀ d ∈ (report id l c).details,
+        d.bytes = (((l.filterMap chunk).filter (·.1 == d.name)).map (·.2.2)).flatten
+        ∧ d.mime = ((((l.filterMap chunk).filter (·.1 == d.name)).head?).bind (·.2.1)).getD 0 := by
+  have hmap : (report id l c).details.map (·.name) = firsts ((l.filterMap chunk).map (·.1)) := by
+    simp [report, List.map_map, Function.comp_def, detailOf]
+  refine ⟨hmap ▸ nodup_firsts _, fun n => ?_, fun d hd => ?_⟩
+  · rw [hmap, mem_firsts]
+    simp only [List.mem_map, List.mem_filterMap]
+    constructor
+    · rintro ⟨⟨n', m, bs⟩, ⟨e, he, hc⟩, rfl⟩; exact ⟨e, he, m, bs, hc⟩
+    · rintro ⟨e, he, m, bs, hc⟩; exact ⟨(n, m, bs), ⟨e, he, hc⟩, rfl⟩
+  · simp only [report, List.mem_map] at hd
+    obtain ⟨n, _, rfl⟩ := hd
+    simp [detailOf]
+
+/-! ## StreamSummary, StreamToExtendedDecorator (readable forms) -/
+/-- **C10 (summary)**: `testsRun` counts the reported tests whose status is not `exists`; each of them lands in
+exactly the list its status names (none for success) — skip / xfail / uxsuccess in theirs, failed and incomplete
+(`inprogress`, `unknown`) tests in `errors`, nothing in `failures`. -/
+theorem C10_summary (es : List Event) :
+    (summarise (consume es)).testsRun = ((reports es).filter fun r => r.status != .exist).length
+    ∧ (summarise (consume es)).errors = idsWith (reports es) .errors
+    ∧ (summarise (consume es)).failures = []
+    ∧ (summarise (consume es)).skipped = idsWith (reports es) .skipped
+    ∧ (summarise (consume es)).expectedFailures = idsWith (reports es) .expectedFailures
+    ∧ (summarise (consume es)).unexpectedSuccesses = idsWith (reports es) .unexpectedSuccesses := by
+  obtain ⟨h1, h2, h3, h4, h5, h6, _⟩ := summarise_spec (reports es)
+  rw [C10_refines]
+  exact ⟨h1, h2, h3, h4, h5, h6⟩
+
+/-- **C10 (verdict)**: `wasSuccessful()` is false exactly when some reported test failed or is incomplete. -/
+theorem C10_verdict (es : List Event) :
+    (summarise (consume es)).wasSuccessful = false ↔ ∃ r ∈ reports es, failedOrIncomplete r.status = true := by
+  rw [C10_refines, (summarise_spec (reports es)).2.2.2.2.2.2]
+  simp only [List.isEmpty_eq_false_iff, idsWith]
+  constructor
+  · intro h
+    cases hf : (reports es).filter (fun r => specBucket r.status == .errors) with
+    | nil => simp [hf] at h
+    | cons r rs =>
+      have : r ∈ (reports es).filter (fun r => specBucket r.status == .errors) := by simp [hf]
+      obtain ⟨h1, h2⟩ := List.mem_filter.mp this
+      exact ⟨r, h1, by rw [failed_iff_bucket]; exact h2⟩
+  · rintro ⟨r, hr, hf⟩ hnil
+    rw [failed_iff_bucket] at hf
+    have : r.id ∈ ((reports es).filter (fun r => specBucket r.status == .errors)).map (·.id) :=
+      List.mem_map.mpr ⟨r, List.mem_filter.mpr ⟨hr, hf⟩, rfl⟩
+    rw [hnil] at this
+    simp at this
+
+/-- **C10 (to extended)**: the calls `StreamToExtendedDecorator` makes are `startTestRun`, then for each report of
+the stream without its `exists` events one well-formed `startTest · outcome · stopTest` bracket — same id, the
+outcome of the status (`fail`/incomplete ↦ failure), the report's tags in force, the supplied times in force, the
+same attachments — then `stopTestRun`. -/
+theorem C10_to_extended (es : List Event) :
+    ∃ mid seen, toExtended es = [.startTestRun] ++ mid ++ [.stopTestRun] ∧ interp {} mid = some seen
+      ∧ all2 replays (reports (es.filter fun e => e.status != some .exist)) seen = true := by
+  obtain ⟨seen, h1, h2⟩ := interp_brackets _ (consume_status es) none
+  refine ⟨_, seen, rfl, h1, ?_⟩
+  simpa [C10_refines] using h2
+
+/-! ## non-vacuity -/
+private def e (tid : Nat) (st : Option Status) (ts : Nat) : Event :=
+  { testId := some tid, status := st, tags := none, runnable := true, fileName := none, fileBytes := none,
+    eof := false, mime := none, route := none, timestamp := some (.t ts) }
+private def f (tid : Nat) (bs : Bytes) : Event :=
+  { testId := some tid, status := none, tags := some [7], runnable := true, fileName := some 2, fileBytes := some bs,
+    eof := false, mime := some 1, route := none, timestamp := none }
+
+/-- two lifetimes of one key (the id is re-used after its final status), an interleaved second test that stays
+open, an attachment split over two chunks around an empty one -/
+example : consume [e 0 (some .inprogress) 1, f 0 [65], e 1 (some .inprogress) 2, f 0 [], f 0 [66, 67],
+                   e 0 (some .fail) 3, e 0 (some .success) 4] =
+    [ { id := 0, tags := [7], details := [{ name := 2, mime := 1, bytes := [65, 66, 67] }], status := .fail,
+        ts0 := some (.t 1), ts1 := some (.t 3) },
+      { id := 0, tags := [], details := [], status := .success, ts0 := some (.t 4), ts1 := some (.t 4) },
+      { id := 1, tags := [], details := [], status := .inprogress, ts0 := some (.t 2), ts1 := none } ] := by
+  decide
+example : (summarise (consume [e 0 (some .inprogress) 1, e 1 (some .skip) 2])).wasSuccessful = false := by decide
+example : (closedOf [] [e 0 (some .fail) 3, e 0 none 4, e 0 (some .success) 5]).length = 2 := by decide
+
 end TTV.Props.C10
